@@ -443,8 +443,12 @@ func judgeTerm(sc *Scenario, res *result) (misses []miss, classes []string) {
 			classes = append(classes, "outcome:mosn:"+cls)
 			var stalled, failed bool
 			for _, a := range res.Arrivals {
-				if a.Step.Kind == "stall" || a.Step.At.Class != "early" {
-					stalled = true // never answered, or the step is due near or after a timer
+				if a.Step.Kind == "stall" || a.Step.Kind == "garbage" || a.Step.At.Class != "early" {
+					// never answered, or the step is due near or after a timer; an upstream that talks nonsense and keeps the
+					// connection open has not answered either: when MOSN's client does not take the bytes for a failure, the
+					// timer ending the request is the property's own outcome (seen at VERIF_SEED=4: 502, retried on the same
+					// connection, garbage, 504 at the global timeout - reproduced serially)
+					stalled = true
 				}
 				if a.Step.Kind == "reset" || a.Step.Kind == "garbage" {
 					failed = true
